@@ -232,6 +232,13 @@ class Ctx:
     def call(self, part: str, oracle: Callable, case):
         """Run an oracle on one case; classify exceptions."""
         self.begin(part, case)
+        self._calls = getattr(self, "_calls", 0) + 1
+        if getattr(self, "clear_caches_every", 0) and self._calls % self.clear_caches_every == 0:
+            # checks whose cases compile ever new shapes (e.g. generated network architectures) would
+            # otherwise exhaust the JIT's executable memory in long runs ("Unable to allocate section memory")
+            import jax
+
+            jax.clear_caches()
         t_start = time.time()
         try:
             try:
